@@ -1,19 +1,24 @@
 #!/bin/sh
-# tools/intake_round.sh <round> [parallelism]
-# Copies the changes the sub-agents of a round left in /tmp/seed<round>/<PID>/mutants into seeded/<PID>-r<round>m<k>/ and runs the first
-# pass on each with the harness as it is now: demo on the clean and on the patched tree, repository suite on the patched tree, quick tier of
-# all twenty checks (tools/eval_mutant.sh, scratch worktree, never /repo).  Result: seeded/<id>/eval_first_pass.txt
-R=$1; J=${2:-5}
+# tools/intake_round.sh <round> [only-these-PIDs...]
+# Copies the changes the sub-agents of a round left in /tmp/seed<round>/<PID>/mutants into seeded/<PID>-r<round>m<k>/ and runs the first pass on
+# each: demo on the clean and on the patched tree + quick tier of all twenty checks (tools/eval_mutant.sh, scratch worktree, never /repo) with the
+# harness snapshot named by VERIF_DIR (frozen before the round's results were read), and - separately, two BLAS threads - the repository suite
+# on the patched tree (tools/suite_mutant.sh).  Results: seeded/<id>/eval_first_pass.txt, seeded/<id>/suite.txt.  Safe to re-run (skips what is complete).
+R=$1; shift
 cd "$(dirname "$0")/.." || exit 2
-for d in /tmp/seed$R/C*/mutants; do
-  P=$(basename $(dirname $d))
+PIDS=${*:-$(ls /tmp/seed$R)}
+IDS=""
+for P in $PIDS; do
+  d=/tmp/seed$R/$P/mutants
   for k in 1 2 3; do
-    [ -f $d/m$k.diff ] || continue
+    [ -f $d/m$k.diff ] && [ -f $d/m${k}_demo.py ] || continue
     ID=$P-r${R}m$k
     mkdir -p seeded/$ID
-    cp $d/m$k.diff seeded/$ID/patch.diff
-    cp $d/m${k}_demo.py seeded/$ID/demo.py 2>/dev/null
-    cp $d/m$k.txt seeded/$ID/notes.txt 2>/dev/null
+    cp $d/m$k.diff seeded/$ID/patch.diff; cp $d/m${k}_demo.py seeded/$ID/demo.py; cp $d/m$k.txt seeded/$ID/notes.txt 2>/dev/null
+    IDS="$IDS $ID"
   done
 done
-ls -d seeded/C*-r${R}m[0-9] | xargs -n1 basename | xargs -P $J -I{} sh -c '[ -s seeded/{}/eval_first_pass.txt ] || tools/eval_mutant.sh seeded/{}/patch.diff seeded/{}/demo.py > seeded/{}/eval_first_pass.txt 2>&1'
+( for i in $IDS; do echo $i; done | xargs -P ${JS:-3} -I{} sh -c 'grep -q passed seeded/{}/suite.txt 2>/dev/null || tools/suite_mutant.sh seeded/{}/patch.diff > seeded/{}/suite.txt 2>&1' ) &
+for i in $IDS; do echo $i; done | SKIP_SUITE=1 xargs -P ${JC:-3} -I{} sh -c '[ "$(grep -c "^C[0-9]* rc=" seeded/{}/eval_first_pass.txt 2>/dev/null)" = 20 ] || tools/eval_mutant.sh seeded/{}/patch.diff seeded/{}/demo.py > seeded/{}/eval_first_pass.txt 2>&1'
+wait
+echo INTAKE-DONE $IDS
